@@ -1,0 +1,32 @@
+//go:build verif
+
+package hydraidego
+
+import (
+	"reflect"
+
+	"github.com/hydraide/hydraide/sdk/go/hydraidego/v3/hydraidepbgo"
+)
+
+// Accessors for the verification harness (build tag `verif` only). They expose the unexported
+// catalog conversion functions unchanged.
+
+// VerifCatalogEncode is convertCatalogModelToKeyValuePair.
+func VerifCatalogEncode(model any, encoding EncodingFormat) (*hydraidepbgo.KeyValuePair, error) {
+	return convertCatalogModelToKeyValuePair(model, encoding)
+}
+
+// VerifCatalogDecode is convertProtoTreasureToCatalogModel.
+func VerifCatalogDecode(treasure *hydraidepbgo.Treasure, model any) error {
+	return convertProtoTreasureToCatalogModel(treasure, model)
+}
+
+// VerifCatalogShape is inspectCatalogModel: shape (0 key-only, 1 single value, 2 map body) and the body field names.
+func VerifCatalogShape(t reflect.Type) (int, []string, error) {
+	shape, fields, err := inspectCatalogModel(t)
+	names := make([]string, 0, len(fields))
+	for _, f := range fields {
+		names = append(names, f.Name)
+	}
+	return int(shape), names, err
+}
